@@ -179,13 +179,22 @@ func getMinIntType(
 	)
 
 	// Work on copies: the normalized bounds may alias the schema's own values.
-	if nExclusiveMin && nMin != nil {
-		v := *nMin + 1.0
+	// The type is chosen from the least and the greatest integer the bounds admit.
+	if nMin != nil {
+		v := math.Ceil(*nMin)
+		if nExclusiveMin {
+			v = math.Floor(*nMin) + 1.0
+		}
+
 		nMin = &v
 	}
 
-	if nExclusiveMax && nMax != nil {
-		v := *nMax - 1.0
+	if nMax != nil {
+		v := math.Floor(*nMax)
+		if nExclusiveMax {
+			v = math.Ceil(*nMax) - 1.0
+		}
+
 		nMax = &v
 	}
 
